@@ -386,6 +386,14 @@ def main():
                 ok2, _ = cargo_build(cfg, log, release=True)
                 if ok2:
                     runs.append(run_cases(cfg, seed + 7919, max(1, ncases // 2), tier, tier + "-rel", log, release=True))
+            # quick tier: a smaller batch against the release build (debug_assert! off, overflow wraps), for the
+            # properties whose configuration asks for it -- some defects only exist without debug assertions
+            if tier == "quick" and cfg.get("release_quick") and "error" not in r and only is None:
+                ok2, out2 = cargo_build(cfg, log, release=True)
+                if ok2:
+                    runs.append(run_cases(cfg, seed + 7919, max(1, ncases // cfg["release_quick"]), tier, tier + "-rel", log, release=True))
+                else:
+                    broken.append("release harness does not build against /repo: " + first_error(out2))
 
     known = [k for k in load_known() if k.get("property") == pid and k.get("status") == "open"]
     known_classes = {k["class"]: k for k in known}
